@@ -513,6 +513,15 @@ func runC08RealtimeSmoke(c *fw.Ctx, id string, v refmatch.Variant) {
 	for t := 1; t < 3; t++ {
 		m.hops[t] = &hopSpec{addr: routerAddr(v.V6, 1, t), delay: 30 * time.Millisecond}
 	}
+	if v.Proto == "syn" {
+		// a SYN-ACK of the target that acknowledges something else (another connection attempt to the same port) arrives
+		// after the first probe: it is looked at and skipped, and the run goes on
+		m.extra = func(e *simEnv, p *refmatch.Probe) {
+			if p.TTL == 1 {
+				e.inject(gen.TCPReply(e.spec.Target, e.local, e.spec.Port, e.lport, 0x66000000, p.Seq+7777, wirefmt.TCPSyn|wirefmt.TCPAck, wirefmt.OptMSS(1460), nil, nil), "near-miss-synack", p, 2*time.Millisecond)
+			}
+		}
+	}
 	done := make(chan drive.Result, 1)
 	t0 := time.Now()
 	go func() { done <- e.run(m) }()
